@@ -190,12 +190,13 @@ Theorem body_read_complete : forall mode early (cl : nat) stream (sched ws : lis
 Proof. exact body_read_complete_lemma. Qed.
 
 (** After any reads whatsoever [drain] (what [handle_connection] calls after the response) takes exactly the rest of
-    the declared body from the connection: the next request starts at the next byte. *)
+    the declared body from the connection: the next request starts at the next byte; a read after it gets nothing. *)
 Theorem body_drain_aligns : forall mode early (cl : nat) stream (sched ws : list nat) data b' r',
   sched_pos sched -> Forall (fun w => (0 < w)%nat) ws ->
   (cl <= length early + Nat.min (sum_sched sched) (length stream))%nat ->
   hb_reads mode (hb_new early cl) (mk_reader stream sched) ws = (data, b', r', None) ->
-  exists b'' r'', hb_drain mode b' r' = Ok (b'', r'') /\ rd_data r'' = skipn (cl - length early) stream /\ hb_unread b'' = 0%nat.
+  exists b'' r'', hb_drain mode b' r' = Ok (b'', r'') /\ rd_data r'' = skipn (cl - length early) stream /\ hb_unread b'' = 0%nat /\
+                  (forall w, hb_read mode b'' r'' w = Ok ([], b'', r'')).
 Proof. exact body_drain_aligns_lemma. Qed.
 
 (** * What was false of the code before this round's repairs (Model/Http1ReadOld.v), each witness replayed on the
